@@ -286,5 +286,33 @@ for ci in range(ncase):
         # PennyLane's batching paths are not always polymorphic in the scalar type (our formal parameters carry a
         # batch dimension of 1): translator limitation, the expression stays covered by the numeric check above
         it["status"], it["detail"] = "notex", f"{type(e).__name__}: {str(e)[:200]}"
+# ---- linear combinations with repeated / cancelling terms (numeric; simplify must return the same linear map)
+def _lc_cases():
+    P = lambda: qp.Projector([1], wires=[2])
+    Hm = lambda: qp.Hermitian(np.array([[1.0, 0.5], [0.5, -1.0]]), wires=0)
+    yield "LC[.5 P,.5 P]", lambda: qp.ops.LinearCombination([0.5, 0.5], [P(), P()])
+    yield "LC[P,-P,I]", lambda: qp.ops.LinearCombination([1.0, -1.0, 1.0], [qp.Z(0) @ P(), qp.Z(0) @ P(), qp.I(0) @ qp.I(1)])
+    yield "LC[P,P,2 Herm]", lambda: qp.ops.LinearCombination([1.0, 1.0, 2.0], [P(), P(), Hm()])
+    yield "LC[.25 H,.75 H]", lambda: qp.ops.LinearCombination([0.25, 0.75], [Hm(), Hm()])
+    yield "LC[X,Z,X]", lambda: qp.ops.LinearCombination([1.0, 2.0, -0.5], [qp.X(0), qp.Z(1), qp.X(0)])
+    yield "LC[ZP,XZ,-ZP]", lambda: qp.ops.LinearCombination([1.0, 0.5, -1.0], [qp.Z(0) @ P(), qp.X(0) @ qp.Z(1), qp.Z(0) @ P()])
+    yield "Sum[.5 P,.5 P]", lambda: qp.sum(qp.s_prod(0.5, P()), qp.s_prod(0.5, P()))
+
+
+for name, mk in _lc_cases():
+    it = {"expr": name, "n": 3, "status": "regression", "detail": "numeric regression block (not an obligation)", "kinds": ["lc-simplify"]}
+    items.append(it)
+    try:
+        op = mk()
+        M = np.asarray(qp.matrix(op, wire_order=[0, 1, 2]))
+        try:
+            S = op.simplify()
+            Ms = np.asarray(qp.matrix(S, wire_order=[0, 1, 2]))
+            if not np.allclose(M, Ms, atol=1e-10):
+                it["numeric_fail"] = {"what": "simplify", "operator": repr(op)[:200], "simplified": repr(S)[:200]}
+        except Exception as e:
+            it["numeric_fail"] = {"what": f"simplify raised {type(e).__name__}: {str(e)[:80]}", "operator": repr(op)[:200]}
+    except Exception as e:
+        it["numeric_fail"] = {"what": f"raised {type(e).__name__}: {str(e)[:150]}"}
 json.dump(oblig, open(req["outdir"] + "/obligations.json", "w"))
 print(json.dumps({"items": items}))
